@@ -58,6 +58,8 @@ func runC05(c *Ctx) {
 	}
 	R.Rule("C05.R6", "what the gate let through is what the caller gets: the entry points return the sanitiser's output unmodified (= C15.R1, cited) — a normalisation of the finished output (dropping bytes, case folding) can re-form a script/style tag from a name that passed the gate")
 	c15FunnelRule(c, "C05.R6")
+	R.Rule("C05.R7", "what is not a tag cannot become one (= C20.R3 / C01.R1, cited): every destination write of sanitize is Token.String() (or a space, or raw data, whose allowUnsafe guard is R2b/C06.R1) — a comment or text written in pieces or through another escaper can close itself and re-form a script element")
+	singleSerialiser(c, "C05.R7", "text or comment data that the tokenizer decoded is written without the escaping that keeps it from being read as markup — a <script> can re-form in the output")
 	R.Rule("C05.R5", "the name the gate judges is the name that is written: token.Data is never stored to in sanitize after the token was read")
 	tokenNameFixed(c, "C05.R5", "the script/style gate (and the most-recently-started variable) judged another spelling than the one Token.String() emits — a name that only becomes \"script\" after the rewrite passes the gate")
 	R.Rule("C05.R4", "raw text arrives whole: the tokenizer runs in its default configuration (only Next/Token/Err/Raw are called on it), so the body of a script or style element is one text token directly after its start tag — the only shape the most-recently-started test suppresses")
